@@ -208,6 +208,12 @@ def consumer(ctx, prog):
         seen = set()
         for p in paths:
             conds = [table.norm_atom(table.strip_gargs(c)) for c in p.conds]
+            if p.kind == "panic":
+                # `&mut self` outlives a panic (Drop runs on it while unwinding): the counters must be as they were
+                hv = p.heap.get(("p", 1))
+                if hv is not None and (sym.mk_field(hv, 1) != tf or sym.mk_field(hv, 2) != tb):
+                    msg = msg or "a panicking path leaves modified counters behind (Drop would then cover the wrong range)"
+                continue
             if p.kind != "return":
                 continue
             if p.value == table.NONE:
